@@ -5,8 +5,12 @@
    * the filesystem is a finite map from canonical absolute paths (list of components from
      the root, no ".", "..", links) to nodes Dir / File content / Link target;
    * [walk] is the kernel's path resolution: component by component from a real directory,
-     ".." physical, symbolic links followed (40 per resolution, then ELOOP), the final
-     component followed or not according to the system call;
+     ".." physical, symbolic links followed (40 per resolution, then ELOOP; a link in the
+     middle of a path by a nested walk that has to end in a directory), the final component
+     followed or not according to the system call;
+   * [pyreal] / [py_realpath] is os.path.realpath as CPython 3.12 computes it (no limit on
+     links, loops detected through `seen`, missing names kept): what the extraction's
+     real-path checks see;
    * system calls return the new state and record an *effect* (kind, real path) for every
      mutation that took place.
 
@@ -198,29 +202,43 @@ Inductive rres :=
 
 Definition MAXSYMLINKS : nat := 40%nat.
 
-(* the kernel's walk: cur is a real directory, todo the remaining components,
-   links the number of symbolic links that may still be followed, fuel a step bound *)
-Fixpoint walk (fuel : nat) (f : fs) (follow : bool) (links : nat) (cur : rpath) (todo : list str) : rres :=
+(* the kernel's walk: cur is a real directory, todo the remaining components, links the number of
+   symbolic links that may still be followed, fuel a bound on the depth of this definition.  A link in
+   the middle of a path is resolved by a nested walk over its target that has to end in a directory;
+   a link at the end is replaced by its target (when the system call follows).  The number of links
+   still allowed is handed back. *)
+Fixpoint walk (fuel : nat) (f : fs) (follow : bool) (links : nat) (cur : rpath) (todo : list str) : rres * nat :=
   match fuel with
-  | O => RErr XLoop
+  | O => (RErr XLoop, links)
   | S fuel' =>
     match todo with
-    | [] => RFound cur Dir
+    | [] => (RFound cur Dir, links)
     | c :: rest =>
       if is_dotdot c then walk fuel' f follow links (removelast cur) rest
       else
         let here := cur ++ [c] in
         match lookup f here with
-        | None => match rest with [] => RMissing here | _ => RErr XNoEnt end
+        | None => (match rest with [] => RMissing here | _ => RErr XNoEnt end, links)
         | Some Dir => walk fuel' f follow links here rest
-        | Some (File d) => match rest with [] => RFound here (File d) | _ => RErr XNotDir end
+        | Some (File d) => (match rest with [] => RFound here (File d) | _ => RErr XNotDir end, links)
         | Some (Link t) =>
           match rest, follow with
-          | [], false => RFound here (Link t)
+          | [], false => (RFound here (Link t), links)
           | _, _ =>
             match links with
-            | O => RErr XLoop
-            | S links' => walk fuel' f follow links' (if p_is_abs t then [] else cur) (pparts t ++ rest)
+            | O => (RErr XLoop, O)
+            | S links' =>
+              let start := if p_is_abs t then [] else cur in
+              match rest with
+              | [] => walk fuel' f true links' start (pparts t)
+              | _ =>
+                match walk fuel' f true links' start (pparts t) with
+                | (RFound q Dir, l2) => walk fuel' f follow l2 q rest
+                | (RFound _ _, l2) => (RErr XNotDir, l2)
+                | (RMissing _, l2) => (RErr XNoEnt, l2)
+                | (RErr x, l2) => (RErr x, l2)
+                end
+              end
             end
           end
         end
@@ -234,7 +252,71 @@ Definition walk_fuel (f : fs) (todo : list str) : nat :=
   (length todo + 41 * S (max_link_len f) + 1)%nat.
 
 Definition resolve (f : fs) (cwd : rpath) (follow : bool) (p : ppath) : rres :=
-  walk (walk_fuel f (pparts p)) f follow MAXSYMLINKS (if p_is_abs p then [] else cwd) (pparts p).
+  fst (walk (walk_fuel f (pparts p)) f follow MAXSYMLINKS (if p_is_abs p then [] else cwd) (pparts p)).
+
+(* ------------------------------------------------------------------ os.path.realpath (strict=False)
+   posixpath._joinrealpath of CPython 3.12: component by component; a name that is no symbolic link --
+   a directory, a file, or nothing at all -- is appended as it is; ".." removes the last name of what has
+   been resolved so far; a symbolic link is resolved by a nested call over its target, unless that link
+   is being resolved already (seen[newpath] is None): then the link's path and whatever was still to be
+   resolved are given back unresolved, and abspath() normalises that text.  There is no limit on the
+   number of links.  `seen` also caches finished links; resolution being a function of the tree, that
+   changes no result.  inprog = the links whose resolution is under way. *)
+Inductive pres :=
+| POk (ab : bool) (q : rpath)
+| PLoop (l : rpath) (rest : list str)
+| PFuel.
+
+(* the keys of `seen` are path texts: the text of a place is relative to the current directory until an
+   absolute link target has been met, and absolute from then on (ab) *)
+Fixpoint mem_key (ab : bool) (p : rpath) (l : list (bool * rpath)) : bool :=
+  match l with [] => false | (b, q) :: l' => (Bool.eqb b ab && rpath_eqb q p) || mem_key ab p l' end.
+
+Fixpoint pyreal (fuel : nat) (f : fs) (inprog : list (bool * rpath)) (ab : bool) (cur : rpath) (todo : list str) : pres :=
+  match fuel with
+  | O => PFuel
+  | S fuel' =>
+    match todo with
+    | [] => POk ab cur
+    | c :: rest =>
+      if is_dotdot c then pyreal fuel' f inprog ab (removelast cur) rest
+      else
+        let here := cur ++ [c] in
+        match lookup f here with
+        | Some (Link t) =>
+          if mem_key ab here inprog then PLoop here rest
+          else
+            match pyreal fuel' f ((ab, here) :: inprog) (ab || p_is_abs t) (if p_is_abs t then [] else cur) (pparts t) with
+            | POk ab2 q => pyreal fuel' f inprog ab2 q rest
+            | PLoop l r => PLoop l (r ++ rest)
+            | PFuel => PFuel
+            end
+        | _ => pyreal fuel' f inprog ab here rest
+        end
+    end
+  end.
+
+(* os.path.normpath on the text of a path that starts at a real path *)
+Definition lexnorm (q : rpath) (rest : list str) : rpath :=
+  fold_left (fun acc c => if is_dotdot c then removelast acc else acc ++ [c]) rest q.
+
+Definition count_links (f : fs) : nat :=
+  fold_right (fun qn m => match snd qn with Link _ => S m | _ => m end) O f.
+Definition real_fuel (f : fs) (todo : list str) : nat :=
+  (walk_fuel f todo + 2 + S (count_links f) * S (max_link_len f))%nat.
+
+(* os.path.realpath(p); the current directory is a real path.  None = the bound of this definition was
+   reached (it is not reached when the kernel resolves the path, see FSProofs.v) *)
+Definition py_realpath (f : fs) (cwd : rpath) (p : ppath) : option rpath :=
+  match pyreal (real_fuel f (pparts p)) f [] (p_is_abs p) (if p_is_abs p then [] else cwd) (pparts p) with
+  | POk _ q => Some q
+  | PLoop l rest => Some (lexnorm l rest)
+  | PFuel => None
+  end.
+
+(* helpers.is_real_path_inside(target, real_root): real_root is a real path *)
+Definition real_inside (f : fs) (cwd : rpath) (root : rpath) (p : ppath) : bool :=
+  match py_realpath f cwd p with Some q => prefixb root q | None => false end.
 
 (* ------------------------------------------------------------------ effects, state *)
 Inductive ekind := KMkdir | KCreate | KTrunc | KSymlink | KUnlink | KUtime | KChmod.
@@ -346,6 +428,10 @@ Fixpoint path_mkdir (fuel : nat) (p : ppath) (parents exist_ok : bool) : M unit 
       else let* d := path_is_dir p in if d then ret tt else raise x
     end).
 Definition mkdir_fuel (p : ppath) : nat := S (S (length (pparts p))).
+
+(* helpers.check_real_path_inside(p, root) *)
+Definition check_inside (root : rpath) (p : ppath) : M unit :=
+  fun s => if real_inside (s_fs s) cwd root p then Ret tt s else Exc XBad7z s.
 
 (* pathlib.Path.touch() *)
 Definition path_touch (p : ppath) : M unit :=
